@@ -361,6 +361,6 @@ def harnesses(tier):
                           bounds=dict(shape=(3,), selection_kinds=SEL_KINDS, views=len(view_family((3,))))))
     ishapes = [(2, 3)] if tier == 'quick' else [(2, 3), (2, 3, 2), (3, 2, 2)]
     for shape in ishapes:
-        hs.append(Harness('indexed %s' % (shape,), body_indexed, params=dict(shape=shape), validate=15,
+        hs.append(Harness('indexed %s' % (shape,), body_indexed, params=dict(shape=shape), validate=15, wall_s=3000, max_paths=500000,
                           bounds=dict(shape=shape, indices='all index tuples, reassigned once')))
     return hs
